@@ -139,7 +139,7 @@ from specs.base import repl  # noqa: E402
 @spec
 def padded(sv: Seq(Real), n: Int) -> Seq(Real):
     """the score vector filled up with zeros to n entries (left as it is when it is already that long)"""
-    return sv + repl(0, n - len(sv)) if len(sv) < n else sv
+    return tuple(sv) + repl(0, n - len(sv)) if len(sv) < n else tuple(sv)
 
 
 @lemma(induct="n")
